@@ -20,13 +20,17 @@ type vRegState struct {
 }
 
 type vRegWorld struct {
-	c    *Container
-	ws   map[int]*WebService
-	hits *[]string
+	c       *Container
+	ws      map[int]*WebService
+	hits    *[]string
+	dynLate bool // dynamic routes are switched on after the first routes were registered
+	dynLazy bool // ... or only right before the first change of the routes of a service
 }
 
 func vNewWorld(hits *[]string) *vRegWorld {
-	return &vRegWorld{c: NewContainer(), ws: map[int]*WebService{}, hits: hits}
+	w := &vRegWorld{c: NewContainer(), ws: map[int]*WebService{}, hits: hits}
+	w.c.Filter(w.c.OPTIONSFilter)
+	return w
 }
 
 func (w *vRegWorld) service(idx int) *WebService {
@@ -35,22 +39,29 @@ func (w *vRegWorld) service(idx int) *WebService {
 	}
 	s := new(WebService)
 	s.Path(vRootMenu[idx])
-	s.SetDynamicRoutes(true)
+	if !w.dynLate && !w.dynLazy {
+		s.SetDynamicRoutes(true)
+	}
 	name := "ws" + vItoa(idx)
 	s.Route(s.GET("/").To(func(req *Request, resp *Response) { *w.hits = append(*w.hits, name) }))
 	s.Route(s.GET("/r").To(func(req *Request, resp *Response) { *w.hits = append(*w.hits, name+"/r") }))
+	if w.dynLate {
+		s.SetDynamicRoutes(true)
+	}
 	w.ws[idx] = s
 	return s
 }
 
 func (w *vRegWorld) addExtra(idx int) {
 	s := w.service(idx)
+	s.SetDynamicRoutes(true)
 	name := "ws" + vItoa(idx) + "/x"
 	s.Route(s.GET("/x").To(func(req *Request, resp *Response) { *w.hits = append(*w.hits, name) }))
 }
 
 func (w *vRegWorld) addTwin(idx int) {
 	s := w.service(idx)
+	s.SetDynamicRoutes(true)
 	name := "ws" + vItoa(idx) + "/x/"
 	s.Route(s.GET("/x/").To(func(req *Request, resp *Response) { *w.hits = append(*w.hits, name) }))
 }
@@ -105,6 +116,7 @@ func vApply(w *vRegWorld, st *vRegState, op int) bool {
 		if k < 0 || st.svcs[k].extra == 0 {
 			return false
 		}
+		w.service(idx).SetDynamicRoutes(true)
 		w.service(idx).RemoveRoute(strings.TrimRight(vRootMenu[idx], "/")+"/x", "GET")
 		st.svcs[k].extra = 0 // RemoveRoute removes every route with that method and path
 	case op >= 110 && op < 130: // Route GET /x/ (slash twin of the extra route)
@@ -148,12 +160,23 @@ func vFresh(st vRegState, hits *[]string) *vRegWorld {
 
 // H_C11: registration state equals what a fresh container with the same content has.
 // op1..op4: the history (0 = no operation); router: 0 Curly, 1 JSR311
-func H_C11(op1, op2, op3, op4, router int) {
+// variant: early probe position (variant%5: 0 none, k before operation k), probe method ((variant/5)%2: GET, OPTIONS),
+// dynamic routes (variant/10): 0 switched on before any route is registered, 1 after the first routes of a service,
+// 2 only right before the first later change of its routes
+func H_C11(op1, op2, op3, op4, router, variant int) {
 	var hitsA, hitsB []string
 	a := vNewWorld(&hitsA)
 	a.c.Router(vRouter(router))
+	a.dynLate = variant/10 == 1
+	a.dynLazy = variant/10 == 2
 	st := &vRegState{}
 	panicked := false
+	// the probe request; it may also be sent once earlier, before one of the operations: an answer computed
+	// then must not survive the operations that follow
+	p := nondetString("path", 8)
+	meth := []string{"GET", "OPTIONS"}[(variant/5)%2]
+	req := func() *http.Request { return vReq{method: meth, path: p}.http() }
+	earlyAt := variant % 5 // 0: no early probe; k: before operation k
 	func() {
 		defer func() {
 			if x := recover(); x != nil {
@@ -163,7 +186,13 @@ func H_C11(op1, op2, op3, op4, router int) {
 				panicked = true
 			}
 		}()
-		for _, op := range []int{op1, op2, op3, op4} {
+		for i, op := range []int{op1, op2, op3, op4} {
+			if earlyAt == i+1 {
+				a.c.Dispatch(vNewRec(), req())
+				a.c.ServeHTTP(vNewRec(), req())
+				hitsA = nil
+				verifCover("early-probe")
+			}
 			if op == 0 {
 				continue
 			}
@@ -186,29 +215,29 @@ func H_C11(op1, op2, op3, op4, router int) {
 	b := vFresh(*st, &hitsB)
 	b.c.Router(vRouter(router))
 	// probe
-	p := nondetString("path", 8)
 	verifKnown("remove-drops-plain-handlers", vAnd(st.plain && removes, strings.HasPrefix(p, "/plain")))
 	verifAssume(strings.Count(strings.Trim(p, "/"), "/") < 3)
-	req := func() *http.Request { return vReq{method: "GET", path: p}.http() }
 	ra, rb := vNewRec(), vNewRec()
 	a.c.Dispatch(ra, req())
 	b.c.Dispatch(rb, req())
 	verifObserveInt("dispatch-status", ra.code())
 	verifObserveStr("dispatch-hits", strings.Join(hitsA, ","))
-	verifAssert(ra.code() == rb.code() && strings.Join(hitsA, ",") == strings.Join(hitsB, ","), "C11: Dispatch answers differently than on a fresh container with the same content")
+	verifAssert(ra.code() == rb.code() && strings.Join(hitsA, ",") == strings.Join(hitsB, ",") && vHdr1(ra, "Allow") == vHdr1(rb, "Allow"), "C11: Dispatch answers differently than on a fresh container with the same content")
 	if len(hitsA) > 0 {
 		verifCover("dispatch-routed")
 	}
+	dispatchHits := strings.Join(hitsA, ",")
 	hitsA, hitsB = nil, nil
 	sa, sb := vNewRec(), vNewRec()
 	a.c.ServeHTTP(sa, req())
 	b.c.ServeHTTP(sb, req())
 	verifObserveInt("serve-status", sa.code())
 	verifObserveStr("serve-hits", strings.Join(hitsA, ","))
-	verifAssert(sa.code() == sb.code() && strings.Join(hitsA, ",") == strings.Join(hitsB, ","), "C11: ServeHTTP answers differently than on a fresh container with the same content")
+	verifAssert(sa.code() == sb.code() && strings.Join(hitsA, ",") == strings.Join(hitsB, ",") && vHdr1(sa, "Allow") == vHdr1(sb, "Allow"), "C11: ServeHTTP answers differently than on a fresh container with the same content")
 	if len(hitsA) > 0 {
 		verifCover("serve-routed")
 	}
+	_ = dispatchHits
 	if sa.code() == 404 {
 		verifCover("serve-404")
 	}
